@@ -2,13 +2,13 @@
 
 Tie to the code (model: coq/theories/PopRead.v, lemmas: PopReadProofs.v, theorems: coq/props/C12.v):
   stream `hist`   real InteractiveContexts built from a generated *program*: two probe components create 1-5 columns of
-                  dtypes bool/int64/float64/str (names incl. `tracked_by`, `untracked_n`; the second component requires
+                  dtypes bool/int64/float64/str (names incl. `tracked_by`, `untracked_n`, `tracked by`, `is tracked`, `my#col`, `a # b`; the second component requires
                   the first one's columns, so that during the initial creation its initializer runs while its own
                   columns do not exist yet); root views are obtained in `setup` through builder.population.get_view
                   (column subsets incl. full views, with / without `tracked`, a column nobody creates, a repeated
                   column; queries from the grammar below, none, or only a comment); then a history of sub-view
                   creations (any depth; invalid requests too), successful and malformed updates (incl. untracking),
-                  births, time steps, finalize, report and reads.  Reads happen (a) inside the second component's
+                  births, time steps, finalize, report, get_population(untracked) calls and reads.  Reads happen (a) inside the second component's
                   initializer during the initial creation (view columns that do not exist yet), (b) inside it during
                   births (reindexed table: NaN cells, bool -> object, int64 -> float64), (c) from outside in the states
                   population_creation / collect_metrics / simulation_end / report and (d) inside listeners of
@@ -20,12 +20,17 @@ Tie to the code (model: coq/theories/PopRead.v, lemmas: PopReadProofs.v, theorem
                   of a segment (a segment ends at a birth), folds the accepted updates itself and predicts every
                   sub-view outcome and every read.
 Query grammar (the model gets the syntax tree, the implementation the text): atom := bare bool column | column OP
-constant | column OP column | column in [constants]; expr := atom | expr and expr | expr or expr | not expr.  Rendering
-varies and/&, or/|, not/~, `not in`, `== [list]`, reversed (`3 < age`) and chained (`1 < age <= 3`) comparisons,
-backticked names, redundant parentheses, both quote styles, and trailing `# comments` (incl. comments that contain
+constant | column OP column | column in [constants] | term OP term (term := column | constant | term + - * term; exact
+fractions); strings are ordered as in Python (ids = rank); expr := atom | expr and expr | expr or expr | not expr.
+Rendering varies and/&, or/|, not/~, `not in`, `== [list]`, reversed (`3 < age`) and chained (`1 < age <= 3`)
+comparisons, backticked names (always for names with spaces, often for `tracked`, now and then for every name of a
+query), redundant parentheses, both quote styles, and trailing `# comments` (incl. comments that contain
 `tracked == True`).  Mentions of `tracked` (== True, == False, bare, negated), top-level `or` (F-P, fixed by 394c1d50)
 and the word "tracked" in places that are NOT the column - longer column names, string constants, comments (F-W, fixed
-by 8679fa8f) - are frequent on purpose.
+by 8679fa8f; backticked names: bc0fe95d, 00163756) - are frequent on purpose; so are `#` characters that do NOT start
+a comment (inside string constants and inside backticked names, F-AI fixed by 3277fe40) followed by real comments.
+No private attribute, helper or container of /repo/src is read: views come from builder.population.get_view /
+PopulationView.subview, tables from InteractiveContext.get_population, the state from builder.lifecycle.current_state.
 Direct oracle: a plain-python reference filter over the harness' own copy of the table (snapshot + the updates the
 harness issued), with the property's rule for the default `tracked` filter; plus the copy probe (the returned frame is
 mutated in place, then the state table is re-read and compared).
@@ -41,8 +46,8 @@ RULE = ("hist: generated programs (module doc) on real InteractiveContexts: 0-10
         "trivial = no read was executed")
 ASSUMPTIONS = [
     "pandas' DataFrame.query evaluates the generated query strings as the syntax tree they were rendered from "
-    "(comparisons, membership and boolean connectives on bool/int64/float64/str columns; NaN compares false except "
-    "under != / not in); validated on every explored case, since the model evaluates the tree and the implementation "
+    "(comparisons incl. string order, membership, + - * arithmetic and boolean connectives on bool/int64/float64/str "
+    "columns; NaN compares false except under != / not in); validated on every explored case, since the model evaluates the tree and the implementation "
     "the text",
     "float cells are multiples of 1/4 (exact in binary64); a float cell F z stands for z/4",
     "the state table shown by get_population(untracked=True) at the start of a segment is the model's input table",
@@ -67,13 +72,13 @@ CLAIM = {
             "running real PopulationViews of real contexts (reads in initializers, event listeners and from outside in "
             "six lifecycle states) and the model on the same generated histories (Coq decides agreement).",
     "note": "Copy semantics is tested (mutate the returned frame, re-read the table), not proved. Queries are limited to "
-            "a comparison/membership/and/or/not grammar; pandas.query is trusted to parse the rendered text to the "
-            "generated tree.",
+            "a comparison/membership/arithmetic/and/or/not grammar; pandas.query is trusted to parse the rendered text "
+            "to the generated tree.",
 }
 
-POOL = ["age", "bmi", "sex", "alive", "wt", "kids", "tracked_by", "untracked_n", "tracked by", "is tracked"]
+POOL = ["age", "bmi", "sex", "alive", "wt", "kids", "tracked_by", "untracked_n", "tracked by", "is tracked", "my#col", "a # b"]
 NAME2ID = {"tracked": 0, "age": 1, "bmi": 2, "sex": 3, "alive": 4, "wt": 5, "kids": 6, "zz": 7, "yy": 8,
-           "tracked_by": 9, "untracked_n": 10, "tracked by": 11, "is tracked": 12}
+           "tracked_by": 9, "untracked_n": 10, "tracked by": 11, "is tracked": 12, "my#col": 13, "a # b": 14}
 DTS = ["bool", "int", "float", "str"]
 # string ids = rank in Python's string order (the model compares strings by id); "q", "it's", "`tracked`" never occur in a table
 STRS = sorted(["x", "y", "z", "w", "q", "tracked", "a#b", "it's", "`tracked`"])
@@ -272,9 +277,15 @@ def render_query(rng, q, comment=True):
         s = render(rng, q) if q is not None else ""
     finally:
         _STYLE["backtick_all"] = False
-    if s and comment and rng.random() < 0.12:
+    if s and comment and rng.random() < (0.5 if "#col`" in s or "# b`" in s else 0.12):
         s += rng.choice(["  # ", " #", "# "]) + rng.choice(COMMENTS)
     return s
+
+
+def has_comment(text):
+    """a `#` outside string constants and backticked names"""
+    import re
+    return "#" in re.sub(r"'[^']*'|\"[^\"]*\"|`[^`]*`", "", text)
 
 
 def tree_cols(q):
@@ -472,6 +483,8 @@ def gen_hist(rng: random.Random):
     names = rng.sample(POOL, k)
     if rng.random() < 0.25 and not any("tracked" in n for n in names):
         names[rng.randrange(k)] = rng.choice(["tracked_by", "untracked_n", "tracked by", "is tracked"])
+    if rng.random() < 0.15 and not any("#" in n for n in names):
+        names[rng.randrange(k)] = rng.choice(["my#col", "a # b"])
     dts = {n: rng.choice(DTS) for n in names}
     cut = rng.randint(0, k)
     g1, g2 = names[:cut], names[cut:]
@@ -843,7 +856,7 @@ class Driver:
                       f"view:{'full' if not vcols else 'has_tracked' if 'tracked' in vcols else 'plain'}"]
         if q is not None:
             self.tags.append("read:extra_query")
-        if "#" in text.replace("a#b", ""):
+        if has_comment(text):
             self.tags.append("read:extra_query_with_comment")
         self.trace.append(["read", k, idx, text, code, obs_cols, [[l, cells] for l, cells in obs_rows][:12]])
 
@@ -1078,8 +1091,10 @@ def run_hist(case):
         # the word "tracked" in the text although the query does not refer to the column (class F-W)
         if "tracked" in r["text"] and "tracked" not in tree_cols(r["q"]):
             d.tags.append("root:word_tracked_not_the_column" + ("" if r["cols"] and "tracked" not in r["cols"] else "(no default due)"))
-        if "#" in r["text"].replace("a#b", ""):
+        if has_comment(r["text"]):
             d.tags.append("root:comment_only" if r["q"] is None else "root:trailing_comment")
+        if any("#" in c for c in tree_cols(r["q"])):
+            d.tags.append("root:hash_in_backticked_name" + ("+comment" if has_comment(r["text"]) else ""))
     ok = not d.fail
     return Result(ok=ok, msg="; ".join(d.fail[:3]), coq=coq, key=case if d.reads else None,
                   obs={"trace": d.trace[:40], "failures": d.fail[:5]}, tags=tuple(d.tags))
@@ -1169,6 +1184,31 @@ def corpus():
                 ["read", 13, [0, 1, 2, 3], ["cmp", "sex", "==", ["s", "tracked"]], "sex == 'tracked'  # tracked == False", "all"],
                 ["grow", 1, [["read", 0, [4, 3], None, "", "subset"], ["read", 1, [4, 0], None, "", "subset"]]],
                 ["read", 13, [4, 3, 2, 1, 0], None, "", "perm"]]
+    cases.append(c)
+    # F-AI (fixed by 3277fe40): a `#` inside a backticked column name does not start a comment; a real comment after it does
+    mc = ["cmp", "my#col", ">", ["i", 0]]
+    ab = ["cmp", "a # b", ">=", ["f", 2]]
+    c = {"g1": [["age", "int"], ["my#col", "int"]], "g2": [["a # b", "float"], ["sex", "str"]], "n0": 4,
+         "vals": {"age": [1, 2, 3, 4, 5], "my#col": [0, 1, 2, 3, 1], "a # b": [2, 0, 8, 4, 2], "sex": ["x", "a#b", "y", "a#b", "x"]}}
+    texts = [(mc, "`my#col` > 0"),
+             (mc, "`my#col` > 0 # c"),
+             (ab, "`a # b` >= 0.5  # tracked == True"),
+             (["or", mc, ["cmp", "a # b", "<", ["i", 1]]], "`my#col` > 0 or `a # b` < 1 # `x"),
+             (["and", ["cmp", "sex", "!=", ["s", "a#b"]], ["cmp", "my#col", ">=", ["i", 0]]], "sex != 'a#b' and `my#col` >= 0 # it's"),
+             (["cmpt", ["*", ["c", "my#col"], ["k", ["i", 2]]], ">", ["c", "age"]], "`my#col` * 2 > age#`tracked`"),
+             (["and", ["not", ["in", "my#col", [["i", 1], ["i", 2]]]], ["col", "tracked"]], "~(`my#col` in [1, 2]) & `tracked` # the column itself"),
+             (["cmpc", "a # b", "<", "my#col"], "`a # b` < `my#col`")]
+    c["roots"] = [{"cols": ["age"], "as_str": False, "q": q, "text": t} for q, t in texts] + \
+                 [{"cols": ["my#col", "a # b"], "as_str": False, "q": None, "text": "# `my#col` only a comment"},
+                  {"cols": ["a # b", "tracked"], "as_str": False, "q": texts[2][0], "text": texts[2][1]},
+                  {"cols": [], "as_str": False, "q": texts[3][0], "text": texts[3][1]}]
+    c["early0"] = [["read", 0, [0, 1, 2, 3], None, "", "all"], ["read", 2, [3, 2], None, "", "subset"]]
+    c["ops"] = [["write", ["tracked"], [1, 2], [[False, False]]]] + \
+               [["read", k, [3, 2, 1, 0], None, "", "perm"] for k in range(11)] + \
+               [["sub", 9, ["a # b"], True], ["sub", 10, ["my#col", "age"], False],
+                ["read", 11, [0, 1, 2, 3], mc, "`my#col`>0 # `a # b`", "all"], ["read", 12, [0, 1, 2, 3], None, "", "all"],
+                ["grow", 1, [["read", 1, [4, 3], None, "", "subset"], ["read", 12, [4, 0], None, "", "subset"]]],
+                ["read", 8, [4, 3, 2, 1, 0], ab, "`a # b` >= 0.5", "perm"]]
     cases.append(c)
     return cases
 
@@ -1289,7 +1329,7 @@ def shrink_hist(case):
         if r["q"] is not None:
             for sub in (r["q"][1:3] if r["q"][0] in ("and", "or") else [r["q"][1]] if r["q"][0] == "not" else []):
                 c = copy.deepcopy(case); c["roots"][k]["q"], c["roots"][k]["text"] = sub, render(det, sub); yield c
-            if "#" in r["text"]:
+            if has_comment(r["text"]):
                 c = copy.deepcopy(case); c["roots"][k]["text"] = render(det, r["q"]); yield c
         if len(r["cols"]) > 1:
             for j in range(len(r["cols"])):
